@@ -97,9 +97,22 @@ def work(item):
         changed = sorted(img)
         targets = sorted(set(img.values()))
         extra = ['1', '7', 'A', 'z', '-', ' ', '.', '٣', 'é', '​', '²', '\n', '\ud800', '\U0001f634', '_', '+', '%', '"', '(', 'X']
-        alpha = changed + extra
+        full = changed + extra
+        if len(changed) > 260:
+            # an unexpectedly large clean-up table (every member is still checked alone and by the code-point sweep):
+            # the pair sweep uses one character per distinct image plus an evenly spaced sample, and says so
+            per_image = {}
+            for c in changed:
+                per_image.setdefault(img[c], c)
+            step = len(changed) / 200.0
+            sample = sorted(set(per_image.values()) | {changed[int(i * step)] for i in range(200)})
+            res['extra']['pair_alphabet_capped'] = {'changed': len(changed), 'used': len(sample)}
+            pair_alpha = sample + extra
+        else:
+            pair_alpha = full
+        alpha = full
         dsets = []
-        t8 = targets[:8] if len(targets) > 8 else targets
+        t8 = [t for t in " -./:,'*" if t in targets][:8] or targets[:8]
         for r in range(len(t8) + 1):
             for comb in itertools.combinations(t8, r):
                 dsets.append(''.join(comb))
@@ -134,13 +147,18 @@ def work(item):
             for d in dsets:
                 n += 1
                 nt += one(a, d)
-            for b in alpha:
+            if a not in pair_alpha:
+                continue
+            for b in pair_alpha:
                 for d in (dsets if not quick else dsets[::5] + dsets[-7:]):
                     n += 1
                     nt += one(a + b, d)
         if key == 0:
             reps = [min((c for c in changed if img[c] == t), default=None) for t in targets]
-            reps = [r for r in reps if r] + extra
+            reps = [r for r in reps if r]
+            if len(reps) > 16:
+                reps = reps[::max(1, len(reps) // 16)][:16]
+            reps = reps + extra
             for t in itertools.product(reps, repeat=3):
                 s = ''.join(t)
                 for d in ('', ' ', ' -', '-.'):
@@ -163,6 +181,8 @@ def work(item):
             inv.setdefault(t, []).append(c)
         for t in inv:
             inv[t].sort()
+            if len(inv[t]) > 60:
+                inv[t] = inv[t][::max(1, len(inv[t]) // 60)]
         sv = seedmod.seeds(name, 2 if quick else 10)
         for s, v in sv:
             for base in dict.fromkeys((s, v)):
